@@ -2009,8 +2009,10 @@ where
 
     /// Rewrite the Bind (F) message to use the prepared statement name
     /// saved in the client cache.
-    /// The Parse message of the named statement a Bind refers to, when that statement was
-    /// prepared in an earlier batch (one parsed in this batch has been looked at already).
+    /// The Parse message of the named statement a Bind refers to, unless that statement is
+    /// the one the router has looked at last: the last one parsed in this batch. (What the
+    /// router remembers of a statement - the positions of its key parameters - is that of the
+    /// last statement it saw, not of every statement of the batch.)
     fn parse_message_of_bound_statement(&self, bind: &BytesMut) -> Option<BytesMut> {
         if !self.prepared_statements_enabled {
             return None;
@@ -2019,11 +2021,19 @@ where
         let client_given_name = Bind::get_name(bind).ok()?;
         let (parse, _) = self.prepared_statements.get(&client_given_name)?;
 
-        let parsed_in_this_batch = self.extended_protocol_data_buffer.iter().any(|data| {
-            matches!(data, ExtendedProtocolData::Parse { metadata: Some((buffered, _)), .. } if buffered.name == parse.name)
-        });
+        let parsed_last_in_this_batch = self
+            .extended_protocol_data_buffer
+            .iter()
+            .rev()
+            .find_map(|data| match data {
+                ExtendedProtocolData::Parse { metadata, .. } => Some(
+                    matches!(metadata, Some((buffered, _)) if buffered.name == parse.name),
+                ),
+                _ => None,
+            })
+            .unwrap_or(false);
 
-        if parsed_in_this_batch {
+        if parsed_last_in_this_batch {
             return None;
         }
 
